@@ -90,6 +90,29 @@ def main():
                 r.setdefault("undecided", []).append("assumption audit %s did not run: %s" % (a["key"], a["error"]))
             else:
                 r.setdefault("audits", []).append({"key": a["key"], "tried": a.get("tried"), "refuted": False})
+        # second line when the verifier cannot decide (lost anchor, rewritten body, unsupported construct, rlimit):
+        # run the executable mirrors of this unit's postconditions against the real code.  A concrete failing
+        # input is a genuine violation (reported as such, labelled as found by execution); finding none proves
+        # nothing and leaves the verdict UNDECIDED.
+        und = bool(r.get("undecided")) or any(o["status"] == "undecided" for o in r["obligations"])
+        if und and u.get("witness"):
+            tried = set()
+            for oid, key in sorted(u["witness"].items()):
+                if key in tried:
+                    continue
+                tried.add(key)
+                d = witness.run_key(REPO, key, seed, 100000)
+                if d.get("found"):
+                    d["replayed_against"] = "the real crate in /repo (native harness /verif/replay, path dependency)"
+                    d["kind"] = "postcondition-refuted-by-execution"
+                    existing = next((o for o in r["obligations"] if o["id"] == oid), None)
+                    detail = ("the verifier could not decide this obligation on the current tree (%s); the executable mirror of "
+                              "its postcondition FAILS on the real code" % "; ".join(r.get("undecided", []))[:600])
+                    if existing is not None:
+                        existing.update({"status": "failed", "witness": d, "detail": detail + "\n" + existing.get("detail", "")})
+                    else:
+                        r["obligations"].append({"id": oid, "status": "failed", "witness": d, "detail": detail,
+                                                 "refuted_by_execution": True})
         results.append(r)
 
     known = load_known()
